@@ -135,8 +135,13 @@ def _load_cache():
 
 def _save_cache(c):
     os.makedirs(os.path.dirname(CACHE), exist_ok=True)
-    with open(CACHE, "w") as f:
-        json.dump(c, f, indent=1)
+    # atomic, and merged with what another check process may have stored meanwhile (checks may run concurrently)
+    cur = _load_cache()
+    cur.update(c)
+    tmp = CACHE + f".{os.getpid()}.tmp"
+    with open(tmp, "w") as f:
+        json.dump(cur, f, indent=1)
+    os.replace(tmp, CACHE)
 
 
 def _env():
